@@ -388,6 +388,18 @@ class Interp:
                         f.doc_target = self.eval(d.args[0], Env(None, {}), mi)
                     except Unsupported:
                         f.doc_target = None
+            if short == "singledispatch":
+                f.registry = []
+                f.decorators.append(dn)
+                continue
+            if short == "setter" and dn and "." in dn:
+                f.kind = "setter"
+                f.decorators.append(dn)
+                continue
+            if short in ("lru_cache", "cache") and (dn or "").split(".")[0] in ("functools", "lru_cache", "cache"):
+                f.memo = {}
+                f.decorators.append(dn)
+                continue
             if short == "wraps" and isinstance(d, ast.Call) and d.args:
                 f.wrapped = (d.args[0], env, mi)
             if dn in ("contextmanager", "contextlib.contextmanager"):
@@ -575,6 +587,37 @@ class Interp:
             self.log("opaque-decorator", node, func=f)
             Interp.note_gap(f"{f.qualname} is wrapped by an unmodelled decorator {f.decorators}")
             return Unknown(f"{f.qualname} is wrapped by an unmodelled decorator {f.decorators}")
+        if f.registry and args:
+            # functools.singledispatch: the implementation registered for the class of the first argument
+            hits = []
+            for cls_, impl in f.registry:
+                r_ = BUILTINS["isinstance"].fn(self, [args[0], cls_], {}, node)
+                if r_ is True:
+                    hits.append(impl)
+                elif r_ is not False:
+                    raise Unsupported(f"singledispatch of {f.qualname} on a value of undecided type")
+            if hits:
+                return self.call_function(hits[-1], args, kwargs, node)
+        if f.memo is not None and not getattr(f, "_memo_running", False):
+            # functools.lru_cache / cache: results are remembered per argument tuple (hash / == of the
+            # arguments; tensors and other objects by identity), for the life of the abstract process
+            flat = list(args) + [x for kv in sorted(kwargs.items()) for x in kv]
+            if any(isinstance(a_, (list, dict, set)) for a_ in flat):
+                self.log("raise", node, exc="TypeError")  # unhashable argument
+                return BOTTOM
+            key = tuple(id(a_) if isinstance(a_, (TV, Obj)) else (a_ if _hashable(a_) else fmt(_term(a_))) for a_ in flat)
+            if any(isinstance(a_, sp.Basic) and a_.free_symbols for a_ in flat) and any(k_ != key and len(k_) == len(key) for k_ in f.memo):
+                raise Unsupported(f"cache lookup of {f.qualname} with symbolic arguments")
+            if key in f.memo:
+                return f.memo[key]
+            f._memo_running = True  # type: ignore[attr-defined]
+            try:
+                res_ = self._call_funcv(f, args, kwargs, node)
+            finally:
+                f._memo_running = False  # type: ignore[attr-defined]
+            if res_ is not BOTTOM:
+                f.memo[key] = res_
+            return res_
         if f.kind == "ctxmanager" and not getattr(self, "_ctx_running", None) is f:
             self.bind(f, args, kwargs)  # arity errors surface at the call
             return CtxGen(f, list(args), dict(kwargs))
@@ -630,7 +673,38 @@ class Interp:
         """Entry point for rules: evaluate f with the given parameter values."""
         return self.call_function(f, [], bound)
 
+    def enum_members(self, c: ClassV) -> Optional[Dict[str, Any]]:
+        """Members of an enum.Enum subclass defined in the repository (one closed object each, with
+        .name / .value; identity is what `is` and `==` compare)."""
+        if not any(self.is_subclass_of_ext(c, b) for b in ("Enum", "IntEnum", "StrEnum", "Flag")):
+            return None
+        if c.enum_members is None:
+            c.enum_members = {}
+            auto_n = 0
+            for st in c.node.body:
+                if isinstance(st, ast.Assign) and len(st.targets) == 1 and isinstance(st.targets[0], ast.Name) and not st.targets[0].id.startswith("_"):
+                    nm = st.targets[0].id
+                    if isinstance(st.value, ast.Call) and (_dotted(st.value.func) or "").split(".")[-1] == "auto":
+                        auto_n += 1
+                        val: Any = auto_n
+                    else:
+                        val = self.eval(st.value, Env(c.env, {}), c.module)
+                    c.enum_members[nm] = Obj(f"{c.module.name}.{c.qualname}", attrs={"name": nm, "value": val, "_name_": nm, "_value_": val}, cls=c, open_attrs=False)
+        return c.enum_members
+
     def _instantiate(self, c: ClassV, args: List[Any], kwargs: Dict[str, Any], node: Any) -> Any:
+        members = self.enum_members(c)
+        if members is not None:
+            # Enum(value): look the member up by value
+            if len(args) == 1:
+                for m_ in members.values():
+                    r_ = self.compare(ast.Eq(), m_.attrs["value"], args[0], node)
+                    if r_ is True:
+                        return m_
+                    if r_ is not False:
+                        raise Unsupported("enum lookup by a symbolic value")
+            self.log("raise", node, exc="ValueError")
+            return BOTTOM
         decos = [_dotted(d.func if isinstance(d, ast.Call) else d) for d in c.node.decorator_list]
         if any(d and d.split(".")[-1] == "dataclass" for d in decos):
             fields = []
@@ -650,6 +724,15 @@ class Interp:
                 if n not in vals:
                     if d is None:
                         raise Unsupported(f"dataclass: missing field {n}")
+                    if isinstance(d, ast.Call) and (_dotted(d.func) or "").split(".")[-1] == "field":
+                        kws = {kw.arg: kw.value for kw in d.keywords}
+                        if "default_factory" in kws:
+                            vals[n] = self.call_function(self.eval(kws["default_factory"], Env(c.env, {}), c.module), [], {}, node)
+                        elif "default" in kws:
+                            vals[n] = self.eval(kws["default"], Env(c.env, {}), c.module)
+                        else:
+                            raise Unsupported(f"dataclass: missing field {n}")
+                        continue
                     vals[n] = self.eval(d, Env(c.env, {}), c.module)
             obj.attrs.update(vals)
             post = self.class_attr(c, "__post_init__")
@@ -697,6 +780,14 @@ class Interp:
         term = T("new", (f"{c.module.name}.{c.qualname}", tuple(_term(a) for a in args), tuple(sorted((k, _term(v)) for k, v in kwargs.items()))))
         return Obj(f"{c.module.name}.{c.qualname}", cls=c, term=term)
 
+    def dunder(self, v: Any, name: str) -> Any:
+        """The special method `name` of an instance of a repository class (bound), else None."""
+        if isinstance(v, (Obj, NTuple)) and isinstance(v.cls, ClassV) and not (isinstance(v, Obj) and v.term is not None):
+            m = self.class_attr(v.cls, name)
+            if isinstance(m, FuncV):
+                return Bound(m, v)
+        return None
+
     def class_bases(self, c: ClassV) -> List[Any]:
         out = []
         for b in c.node.bases:
@@ -712,6 +803,8 @@ class Interp:
             return c.overrides[name]
         for st in c.node.body:
             if isinstance(st, (ast.FunctionDef, ast.AsyncFunctionDef)) and st.name == name:
+                if any((_dotted(d) or "").endswith((".setter", ".deleter")) for d in st.decorator_list):
+                    continue
                 return self.decorate(self.make_func(st, c.module, c.env, f"{c.qualname}.{name}", cls=c), c.env, c.module)
             if isinstance(st, ast.ClassDef) and st.name == name:
                 return ClassV(st, c.module, f"{c.qualname}.{name}", c.env)
@@ -722,6 +815,17 @@ class Interp:
         for b in self.class_bases(c):
             if isinstance(b, ClassV):
                 r = self.class_attr(b, name)
+                if r is not None:
+                    return r
+        return None
+
+    def class_setter(self, c: ClassV, name: str) -> Any:
+        for st in c.node.body:
+            if isinstance(st, ast.FunctionDef) and st.name == name and any((_dotted(d) or "").endswith(".setter") for d in st.decorator_list):
+                return self.make_func(st, c.module, c.env, f"{c.qualname}.{name}.setter", cls=c)
+        for b in self.class_bases(c):
+            if isinstance(b, ClassV):
+                r = self.class_setter(b, name)
                 if r is not None:
                     return r
         return None
@@ -1110,11 +1214,17 @@ class Interp:
                 return ("raise", None)
             return box[0]
         self.log("with", st, ctx=cm)
+        m_enter, m_exit = self.dunder(cm, "__enter__"), self.dunder(cm, "__exit__")
+        entered = self.call_function(m_enter, [], {}, st) if m_enter is not None else cm
+        if entered is BOTTOM:
+            return ("raise", None)
         if item.optional_vars is not None:
-            self.assign(item.optional_vars, cm, env, mi, st)
+            self.assign(item.optional_vars, entered, env, mi, st)
         out = self._exec_with(st, idx + 1, env, mi)
         if isinstance(cm, Obj) and "__exit__" in cm.attrs:
             self.call_function(cm.attrs["__exit__"], [], {}, st)
+        elif m_exit is not None:
+            self.call_function(m_exit, [None, None, None], {}, st)  # normal exit; on an exception the raise is what the caller sees
         return out
 
     def _match(self, pat: Any, subj: Any, binds: Dict[str, Any], env: Env, mi: ModInfo) -> Any:
@@ -1277,6 +1387,11 @@ class Interp:
             return list(it)[it.pos :]
         if isinstance(it, (tuple, list)):
             return list(it)
+        m_iter = self.dunder(it, "__iter__") if isinstance(it, Obj) else None
+        if m_iter is not None:
+            return self.concrete_iter(self.call_function(m_iter, [], {}, None))
+        if isinstance(it, ClassV) and self.enum_members(it) is not None:
+            return list(self.enum_members(it).values())
         if isinstance(it, (set, frozenset)):
             return sorted(it, key=_set_order)
         if hasattr(it, "snapshot") and hasattr(it, "after"):
@@ -1308,6 +1423,11 @@ class Interp:
             return
         if isinstance(target, ast.Attribute):
             obj = self.eval(target.value, env, mi)
+            if isinstance(obj, Obj) and isinstance(obj.cls, ClassV) and obj.term is None:
+                setter = self.class_setter(obj.cls, target.attr)
+                if setter is not None:
+                    self.call_function(setter, [obj, v], {}, st)
+                    return
             if isinstance(obj, Obj):
                 if ("set:" + target.attr) in obj.dyn:
                     obj.dyn["set:" + target.attr](v)
@@ -1416,6 +1536,12 @@ class Interp:
         if isinstance(v, (FuncV, ClassV, ExtV, ModV, Bound)):
             return True
         if isinstance(v, Obj):
+            for dn_ in ("__bool__", "__len__"):
+                m = self.dunder(v, dn_)
+                if m is not None:
+                    return self._truth(self.call_function(m, [], {}, node), node)
+            if v.term is None and v.cls is not None and not v.open_attrs:
+                return True  # an instance of a repository class without __bool__/__len__
             return T("truth", (_term(v),))
         if isinstance(v, Gamma):
             a, b = self.truth(v.a, node), self.truth(v.b, node)
@@ -1618,6 +1744,14 @@ class Interp:
             return a
         if isinstance(b, Unknown):
             return b
+        dn_ = {"add": "add", "sub": "sub", "mul": "mul", "div": "truediv", "floordiv": "floordiv", "mod": "mod", "pow": "pow", "and": "and", "or": "or", "xor": "xor", "matmul": "matmul", "lshift": "lshift", "rshift": "rshift"}.get(name)
+        if dn_:
+            m_op = (self.dunder(a, f"__i{dn_}__") if inplace else None) or self.dunder(a, f"__{dn_}__")
+            if m_op is not None:
+                return self.call_function(m_op, [b], {}, node)
+            m_rop = self.dunder(b, f"__r{dn_}__")
+            if m_rop is not None:
+                return self.call_function(m_rop, [a], {}, node)
         if isinstance(a, (TV, Obj)) or isinstance(b, (TV, Obj)):
             return self.ext.tensor_binop(self, name, a, b, node, inplace)
         if (isinstance(a, ExtV) and a.name not in self.ext.DTYPES) or (isinstance(b, ExtV) and b.name not in self.ext.DTYPES):
@@ -1694,6 +1828,10 @@ class Interp:
             neg = isinstance(op, ast.NotIn)
             if isinstance(b, dict):
                 b = list(b.keys())
+            m_c = self.dunder(b, "__contains__")
+            if m_c is not None:
+                r = self.truth(self.call_function(m_c, [a], {}, node), node)
+                return _not(r) if neg else r
             if isinstance(b, str) and isinstance(a, str):
                 r = a in b
                 return (not r) if neg else r
@@ -1715,6 +1853,12 @@ class Interp:
         name = _CMPNAME[type(op)]
         if isinstance(a, Unknown) or isinstance(b, Unknown):
             return T(name, (_term(a), _term(b)))
+        if name in ("eq", "ne", "lt", "le", "gt", "ge"):
+            m_eq = self.dunder(a, f"__{name}__") or (self.dunder(a, "__eq__") if name == "ne" else None)
+            if m_eq is not None:
+                r = self.call_function(m_eq, [b], {}, node)
+                if not (isinstance(r, ExtV) and r.name.endswith("NotImplemented")):
+                    return _not(self.truth(r, node)) if (name == "ne" and m_eq.func.node.name == "__eq__") else r
         if isinstance(a, (TV, Obj)) or isinstance(b, (TV, Obj)):
             # comparisons with opaque values / tensors
             ta, tb = _term(a), _term(b)
@@ -1788,6 +1932,12 @@ class Interp:
             if r is not None:
                 return r
         if isinstance(v, ClassV):
+            members = self.enum_members(v)
+            if members is not None:
+                if attr in members:
+                    return members[attr]
+                if attr == "__members__":
+                    return dict(members)
             r = self.class_attr(v, attr)
             if isinstance(r, FuncV) and r.kind == "classmethod":
                 return Bound(r, v)
@@ -1866,6 +2016,26 @@ class Interp:
                 return v.qualname
             if attr == "__get__":
                 return _Builtin("__get__", lambda it, a, k, nd, f=v: Bound(f, a[0]))
+            if attr == "register" and v.registry is not None:
+                def _register(it, a, k, nd, f=v):
+                    if len(a) == 2:
+                        f.registry.append((a[0], a[1]))
+                        return a[1]
+                    if len(a) == 1 and isinstance(a[0], FuncV):
+                        # annotation form: the class is the annotation of the first parameter
+                        impl = a[0]
+                        ann = impl.node.args.args[0].annotation if impl.node.args.args else None
+                        if ann is None:
+                            raise Unsupported("singledispatch.register without a class")
+                        cls_ = it.eval(ann if not isinstance(ann, ast.Constant) or not isinstance(ann.value, str) else ast.parse(ann.value, mode="eval").body, impl.env or Env(None, {}), impl.module)
+                        f.registry.append((cls_, impl))
+                        return impl
+                    cls_ = a[0]
+                    return _Builtin("register", lambda it2, a2, k2, nd2: (f.registry.append((cls_, a2[0])), a2[0])[1])
+
+                return _Builtin("singledispatch.register", _register)
+            if attr == "cache_clear" and v.memo is not None:
+                return _Builtin("cache_clear", lambda it, a, k, nd, f=v: f.memo.clear())
             return Unknown(f"function attr {attr}")
         if isinstance(v, Shape):
             if attr == "numel":
@@ -1930,6 +2100,9 @@ class Interp:
         if isinstance(v, (TV, Obj)):
             if isinstance(v, Obj) and "__getitem__" in v.attrs:
                 return self.call_function(v.attrs["__getitem__"], [idx], {}, node)
+            m_gi = self.dunder(v, "__getitem__")
+            if m_gi is not None:
+                return self.call_function(m_gi, [idx], {}, node)
             shape = None
             vs = getattr(v, "shape", None)
             if vs is not None and isinstance(idx, tuple) and len(idx) == len(vs) and all(isinstance(i_, slice) or (isinstance(i_, T) and i_.op == "slice") or isinstance(i_, Gamma) for i_ in idx):
@@ -1945,6 +2118,11 @@ class Interp:
             return ExtV(idx)
         if isinstance(v, ExtV) and v.name.endswith("typing.Literal"):
             return Obj("typing.Literal", attrs={"__args__": tuple(idx) if isinstance(idx, tuple) else (idx,)}, term=T("literal", (_term(idx),)), open_attrs=False)
+        if isinstance(v, ClassV) and self.enum_members(v) is not None and isinstance(idx, str):
+            if idx in self.enum_members(v):
+                return self.enum_members(v)[idx]
+            self.log("raise", node, exc="KeyError")
+            return BOTTOM
         if isinstance(v, (ExtV, ClassV)):
             return v  # typing subscripts: Dict[...], Optional[...]
         raise Unsupported(f"subscript of {type(v).__name__}")
